@@ -2,13 +2,15 @@
 //
 // Every case drives the REAL code: stores are built by ingestion through Chains.Add on a
 // real SQLite file, exported with database.ExportHeaders, and imported with
-// database.Init(prepared_db=true) into a fresh SQLite file. The oracle reads the tables
-// through raw SQL (snap) and compares them row by row.
+// database.Init(prepared_db=true) (through rig, i.e. the start-up path of cmd/main.go)
+// into a fresh SQLite file. The oracle reads the tables through raw SQL (snap) and
+// compares them row by row.
 //
-// The export writes a fixed $TMPDIR/headers.csv and the import resolves its file name
-// relative to the cwd and decompresses into $TMPDIR/<unix>-blockheaders.csv, so the body
-// moves the (child) process into a private directory under r.Scratch and points TMPDIR at
-// it; cases inside one process run strictly one after the other.
+// The export writes a fixed $TMPDIR/headers.csv; the import resolves its file name
+// relative to the cwd and decompresses into $TMPDIR/<unix>-blockheaders.csv. The body
+// therefore moves the (child) process into a private directory under r.Scratch and points
+// TMPDIR at it; cases inside one process run strictly one after the other and use
+// distinct file names per role.
 package c17
 
 import (
@@ -16,16 +18,12 @@ import (
 	"compress/gzip"
 	"fmt"
 	"io"
-	"math"
-	"math/rand"
 	"os"
 	"path/filepath"
 	"regexp"
 	"runtime/debug"
 	"sort"
-	"strconv"
 	"strings"
-	"time"
 
 	"github.com/bitcoin-sv/block-headers-service/config"
 	"github.com/bitcoin-sv/block-headers-service/database"
@@ -51,20 +49,72 @@ type env struct {
 	log  zerolog.Logger
 }
 
+func body(r *ev.Run) {
+	r.Rule("(1) round trips: stores built by ingestion (constructed chains of exact longest length 1..1600 incl. 499/500/501/999/1000/1001/1499/1500/1501 with stale forks, real reorganisations, orphans; and seeded random histories over all bits classes), every header with extreme field values (negative versions, max uint32 nonce, timestamps over the whole uint32 range), a share of them in a non-UTC process time zone -> ExportHeaders -> start-up with prepared_db into an empty database, newest checkpoint = a block of the chain; rows compared column by column. (2) refusals: per exported store, every corruption class {non-numeric, out-of-range, empty field, changed value} x every column, {column count, deleted row, duplicated row, swapped rows, truncated csv} at rows {1,499,500,501,last}, {truncated gzip, flipped gzip byte, not gzip, header line missing/duplicated/altered}, checkpoint hash mismatch and checkpoint height beyond the chain; a refusal is required only when the mutation makes a row malformed, or changes/removes a row at or below the newest checkpoint (so the checkpoint hash or the count contradicts the file); after every refusal a second start on the same database. (3) a start with prepared_db on a database that already holds headers. evaluations = round trips + corruption cases + non-empty cases; distinct = distinct (length, stale, orphan, checkpoint, zone) round-trip shapes and distinct (store length class, corruption id) cases; non-trivial = round trips with stale/orphan rows or more than 500 rows, and every corruption case.")
+	r.Assume("SQLite engine only", "stdlib compress/gzip output is a valid input for the import (checked by a control import per store)", "a store whose ingestion panicked or whose LONGEST_CHAIN labelling is already broken is not used as a round-trip source (C01/C02 cover that)", "second start uses the same configuration as the refused one")
+	work := filepath.Join(r.Scratch, "c17")
+	if err := os.MkdirAll(work, 0o755); err != nil {
+		r.Violate("harness|scratch", err.Error(), "", nil)
+		return
+	}
+	oldWd, _ := os.Getwd()
+	oldTmp, hadTmp := os.LookupEnv("TMPDIR")
+	_ = os.Setenv("TMPDIR", work)
+	if err := os.Chdir(work); err != nil {
+		r.Violate("harness|chdir", err.Error(), "", nil)
+		return
+	}
+	defer func() {
+		_ = os.Chdir(oldWd)
+		if hadTmp {
+			_ = os.Setenv("TMPDIR", oldTmp)
+		} else {
+			_ = os.Unsetenv("TMPDIR")
+		}
+	}()
+	oldCps := config.Checkpoints
+	defer func() { config.Checkpoints = oldCps }()
+	e := &env{r: r, work: work, log: zerolog.Nop()}
+
+	r.Require("roundtrips_equal", int64(r.Pick(40, 1000)))
+	r.Require("roundtrips_crossing_batch_boundary", int64(r.Pick(8, 200)))
+	r.Require("stale_headers_left_out", 50)
+	r.Require("orphan_headers_left_out", 30)
+	r.Require("negative_versions_roundtripped", 100)
+	r.Require("timestamps_beyond_2038_roundtripped", 100)
+	r.Require("refusals_observed", int64(r.Pick(250, 8000)))
+	r.Require("second_starts_after_refusal", int64(r.Pick(250, 8000)))
+	r.Require("nonempty_untouched_checks", int64(r.Pick(40, 1000)))
+	r.Require("control_imports_equal", int64(r.Pick(4, 60)))
+
+	nRT := r.Pick(60, 1500)
+	for i := 0; i < nRT; i++ {
+		caseID := fmt.Sprintf("rt/%d", i)
+		r.Do(caseID, func() { e.roundTrip(caseID, i) })
+	}
+	nStores := r.Pick(4, 64)
+	parts := r.Pick(6, 2)
+	for k := 0; k < nStores; k++ {
+		for p := 0; p < parts; p++ {
+			unit := fmt.Sprintf("cor/s%d/p%d", k, p)
+			r.Do(unit, func() { e.corruptionUnit(unit, k, p, parts) })
+		}
+	}
+}
+
 // ---------------------------------------------------------------------------
 // store A: ingestion + export
 
 type store struct {
 	hist     gen.History
-	all      snap.Headers        // whole table of A
-	expected map[int64]snap.Row  // A's LONGEST_CHAIN rows by height
-	n        int                 // number of LONGEST_CHAIN rows
+	all      snap.Headers       // whole table of A
+	expected map[int64]snap.Row // A's LONGEST_CHAIN rows by height
+	n        int                // number of LONGEST_CHAIN rows
 	stale    int
 	orphan   int
 	gz       []byte   // the exported file, as written by ExportHeaders
 	header   string   // first line of the decompressed export
 	lines    []string // data lines of the decompressed export
-	skipWhy  string
 }
 
 func (s *store) hashAt(h int) *chainhash.Hash {
@@ -90,6 +140,15 @@ func snapshotFile(path string) (snap.Headers, error) {
 	return snap.TakeHeaders(db)
 }
 
+func allDigestFile(path string) (string, error) {
+	db, err := openRaw(path)
+	if err != nil {
+		return "", err
+	}
+	defer db.Close()
+	return snap.AllDigest(db)
+}
+
 func removeDB(path string) {
 	for _, sfx := range []string{"", "-journal", "-wal", "-shm"} {
 		_ = os.Remove(path + sfx)
@@ -97,8 +156,9 @@ func removeDB(path string) {
 }
 
 // buildStore ingests the history into a fresh store through the real Chains.Add and
-// exports it with the real ExportHeaders into <work>/<file>. Returns nil + reason when the
-// store cannot serve as the source of a round trip (that is other properties' business).
+// exports it with the real ExportHeaders into <work>/<file>. Returns nil when the store
+// cannot serve as the source of a round trip (that is other properties' business) or the
+// export itself failed (violation recorded).
 func (e *env) buildStore(caseID string, hist gen.History, dbName, file string) *store {
 	r := e.r
 	s := &store{hist: hist}
@@ -191,7 +251,7 @@ func gunzip(b []byte) ([]byte, error) {
 	return io.ReadAll(zr)
 }
 
-func gz(txt []byte) []byte {
+func gzipBytes(txt []byte) []byte {
 	var buf bytes.Buffer
 	zw := gzip.NewWriter(&buf)
 	_, _ = zw.Write(txt)
@@ -201,17 +261,24 @@ func gz(txt []byte) []byte {
 
 func clipHist(h gen.History) any {
 	hx := h.Hex()
-	if len(hx) > 400 {
-		return map[string]any{"first_400_of": len(hx), "headers": hx[:400]}
+	if len(hx) > 300 {
+		return map[string]any{"total_headers": len(hx), "first_300": hx[:300]}
 	}
 	return hx
 }
 
+func clip(s string, n int) string {
+	if len(s) > n {
+		return s[:n]
+	}
+	return s
+}
+
 var (
 	reQuoted = regexp.MustCompile(`"[^"]*"`)
+	rePath   = regexp.MustCompile(`/[^ :]+`)
 	reHex    = regexp.MustCompile(`[0-9a-f]{16,}`)
 	reNum    = regexp.MustCompile(`-?[0-9]+`)
-	rePath   = regexp.MustCompile(`/[^ :]+`)
 )
 
 // errClass turns an error text into a structural class (no run-specific values).
@@ -221,10 +288,7 @@ func errClass(err error) string {
 	s = rePath.ReplaceAllString(s, "P")
 	s = reHex.ReplaceAllString(s, "H")
 	s = reNum.ReplaceAllString(s, "N")
-	if len(s) > 90 {
-		s = s[:90]
-	}
-	return s
+	return clip(s, 90)
 }
 
 // ---------------------------------------------------------------------------
@@ -302,7 +366,13 @@ func compare(expected map[int64]snap.Row, got snap.Headers) (kinds string, desc 
 	for _, g := range got {
 		byHeight[g.Height] = append(byHeight[g.Height], g)
 	}
-	for h, w := range expected {
+	heights := make([]int64, 0, len(expected))
+	for h := range expected {
+		heights = append(heights, h)
+	}
+	sort.Slice(heights, func(i, j int) bool { return heights[i] < heights[j] })
+	for _, h := range heights {
+		w := expected[h]
 		gs := byHeight[h]
 		if len(gs) == 0 {
 			note("missing-row", fmt.Sprintf("height %d (%s) missing", h, w.Hash))
@@ -350,243 +420,4 @@ func lenClass(n int) string {
 	default:
 		return "n>1000"
 	}
-}
-
-// ---------------------------------------------------------------------------
-// history builders
-
-// buildExact builds a history whose longest chain has L rows (genesis included), with
-// stale forks (submitted behind the tip with less work), real reorganisations (a branch
-// that was longest first and is overtaken), orphans, and extreme field values.
-func buildExact(rng *rand.Rand, L int) gen.History {
-	g := rig.Genesis()
-	main := []refmodel.Hash{g.HashOf()}
-	counter := 0
-	var out gen.History
-	mk := func(prev refmodel.Hash, bits uint32) refmodel.Hdr {
-		counter++
-		h := refmodel.Hdr{Prev: prev, Bits: bits}
-		gen.Fields(rng, &h, true, counter)
-		out.Hdrs = append(out.Hdrs, h)
-		return h
-	}
-	randHash := func() refmodel.Hash {
-		var h refmodel.Hash
-		rng.Read(h[:])
-		return h
-	}
-	pReorg, pStale, pOrphan := 0.01+0.03*rng.Float64(), 0.02+0.08*rng.Float64(), 0.01+0.03*rng.Float64()
-	for len(main) < L {
-		tip := main[len(main)-1]
-		x := rng.Float64()
-		switch {
-		case x < pReorg && L-len(main) >= 3:
-			a1 := mk(tip, gen.BitsNormal)
-			mk(a1.HashOf(), gen.BitsNormal)
-			m1 := mk(tip, gen.BitsNormal)
-			m2 := mk(m1.HashOf(), gen.BitsNormal)
-			m3 := mk(m2.HashOf(), gen.BitsNormal)
-			main = append(main, m1.HashOf(), m2.HashOf(), m3.HashOf())
-		case x < pReorg+pStale && len(main) >= 2:
-			j := rng.Intn(len(main) - 1)
-			s1 := mk(main[j], gen.BitsLight)
-			if j+2 < len(main) && rng.Intn(2) == 0 {
-				mk(s1.HashOf(), gen.BitsLight)
-			}
-		case x < pReorg+pStale+pOrphan:
-			mk(randHash(), gen.BitsNormal)
-		default:
-			bits := gen.BitsNormal
-			if rng.Intn(8) == 0 {
-				bits = gen.BitsHeavy
-			}
-			m := mk(tip, bits)
-			main = append(main, m.HashOf())
-		}
-	}
-	for i := rng.Intn(3); i > 0; i-- {
-		mk(randHash(), gen.BitsNormal)
-	}
-	if L >= 2 && rng.Intn(2) == 0 { // a stale sibling of an early block, submitted last
-		j := rng.Intn(len(main) - 1)
-		mk(main[j], gen.BitsLight)
-	}
-	return out
-}
-
-var boundaryLengths = []int{1, 2, 3, 499, 500, 501, 502, 999, 1000, 1001, 1499, 1500, 1501, 1600}
-
-// ---------------------------------------------------------------------------
-// round trips
-
-func (e *env) roundTrip(caseID string, idx int) {
-	r := e.r
-	rng := r.Rand(caseID)
-	// every 7th case runs in a process whose local time zone is not UTC (the timestamp
-	// column is written with the zone offset; the export converts it back with strftime)
-	zone := "UTC"
-	if idx%7 == 3 {
-		off := []int{19800, -12600, 3600, 45900, -39600}[rng.Intn(5)]
-		old := time.Local
-		time.Local = time.FixedZone("VERIF", off)
-		defer func() { time.Local = old }()
-		zone = fmt.Sprintf("UTC%+d", off)
-	}
-	var hist gen.History
-	kind := ""
-	switch {
-	case idx < len(boundaryLengths):
-		kind = "exact"
-		hist = buildExact(rng, boundaryLengths[idx])
-	case idx%3 == 0:
-		kind = "exact"
-		hist = buildExact(rng, 1+rng.Intn(1600))
-	default:
-		kind = "random"
-		hist = gen.Random(rng, rig.Genesis(), gen.Opts{
-			N:            1 + rng.Intn(300),
-			PDup:         []float64{0, 0.05}[rng.Intn(2)],
-			PUnknown:     []float64{0, 0.03, 0.1}[rng.Intn(3)],
-			PLate:        []float64{0, 0.05, 0.2}[rng.Intn(3)],
-			PFork:        []float64{0.02, 0.1, 0.3}[rng.Intn(3)],
-			Classes:      []string{"M", "MH", "MHL", "MMMMHLZ", "MHLZNTUX", "MMMMHLR"}[rng.Intn(6)],
-			FieldExtreme: true,
-		})
-	}
-	s := e.buildStore(caseID, hist, "A.db", "rt.csv.gz")
-	if s == nil {
-		return
-	}
-	defer os.Remove(filepath.Join(e.work, "rt.csv.gz"))
-	defer e.cleanTmp()
-	detail := map[string]any{"history_hex": clipHist(hist), "longest_rows": s.n, "stale": s.stale, "orphan": s.orphan, "zone": zone}
-	// the newest checkpoint is a block of the exported chain
-	cpH := []int{0, s.n - 1, rng.Intn(s.n), rng.Intn(s.n)}[rng.Intn(4)]
-	cps := s.checkpointAt(cpH)
-	if rng.Intn(2) == 0 && cpH > 0 { // older checkpoints before the newest one
-		cps = append(s.checkpointAt(rng.Intn(cpH)), cps...)
-	}
-	detail["checkpoint_height"] = cpH
-	removeDB(filepath.Join(e.work, "B.db"))
-	res := e.importInto("B.db", "rt.csv.gz", cps)
-	lc := lenClass(s.n)
-	if res.panic != nil {
-		detail["stack"] = clip(res.stack, 4000)
-		r.Violate("roundtrip|import-panicked|"+lc, fmt.Sprintf("start-up with prepared_db panicked: %v", res.panic), caseID, detail)
-		return
-	}
-	if res.err != nil {
-		removeDB(filepath.Join(e.work, "B.db"))
-		r.Violate("roundtrip|import-refused|"+errClass(res.err), "importing the file exported from a valid store failed: "+res.err.Error(), caseID, detail)
-		return
-	}
-	defer res.st.Destroy()
-	got, err := snap.TakeHeaders(res.st.DB)
-	if err != nil {
-		r.Violate("harness|snapshot", err.Error(), caseID, nil)
-		return
-	}
-	if kinds, desc := compare(s.expected, got); kinds != "" {
-		r.Violate("roundtrip|rows-differ|"+kinds, "imported rows differ from the exported store's LONGEST_CHAIN rows: "+desc, caseID, detail)
-		return
-	}
-	// B serves the chain: tip through the real service
-	tip := res.st.Svc.Headers.GetTip()
-	if want := s.expected[int64(s.n-1)]; tip == nil || tip.Hash.String() != want.Hash || int64(tip.Height) != want.Height {
-		r.Violate("roundtrip|tip-differs", fmt.Sprintf("GetTip on the imported database = %v, exported tip %s at %d", tip, want.Hash, want.Height), caseID, detail)
-		return
-	}
-	// a later start on the now non-empty database must leave it alone
-	d0 := got.Digest()
-	if err := res.st.Restart(); err != nil {
-		r.Violate("roundtrip|restart-after-import-failed|"+errClass(err), "second start on the imported database failed: "+err.Error(), caseID, detail)
-		return
-	}
-	got2, err := snap.TakeHeaders(res.st.DB)
-	if err != nil {
-		r.Violate("harness|snapshot", err.Error(), caseID, nil)
-		return
-	}
-	if got2.Digest() != d0 {
-		r.Violate("import-touched-nonempty-db|restart-on-imported", "a second start with prepared_db on the imported database changed its rows", caseID, detail)
-		return
-	}
-	r.Count("nonempty_untouched_checks", 1)
-
-	// evidence
-	r.Count("roundtrips_equal", 1)
-	r.Count("rows_compared", int64(s.n))
-	r.Count("stale_headers_left_out", int64(s.stale))
-	r.Count("orphan_headers_left_out", int64(s.orphan))
-	if s.n > 500 {
-		r.Count("roundtrips_crossing_batch_boundary", 1)
-	}
-	if s.n%500 <= 1 || s.n%500 == 499 {
-		r.Count("roundtrips_at_batch_edge", 1)
-	}
-	if zone != "UTC" {
-		r.Count("roundtrips_non_utc_zone", 1)
-	}
-	var negV, maxU, lateT, earlyT int64
-	for _, row := range s.expected {
-		if row.Version < 0 {
-			negV++
-		}
-		if row.Nonce == math.MaxUint32 || row.Bits == "4294967295" {
-			maxU++
-		}
-		if row.TimeUnix >= 1<<31 {
-			lateT++
-		}
-		if row.TimeUnix < 86400 {
-			earlyT++
-		}
-	}
-	r.Count("negative_versions_roundtripped", negV)
-	r.Count("max_uint32_nonce_or_bits_roundtripped", maxU)
-	r.Count("timestamps_beyond_2038_roundtripped", lateT)
-	r.Count("timestamps_first_day_of_epoch_roundtripped", earlyT)
-	sig := fmt.Sprintf("%s|n=%d|stale=%d|orphan=%d|cp=%d|%s", kind, s.n, s.stale, s.orphan, cpH, zone)
-	r.Case(sig, s.stale > 0 || s.orphan > 0 || s.n > 500)
-	if r.WantSample() && s.n > 500 && s.stale > 0 && s.orphan > 0 {
-		r.Sample(map[string]any{"case": caseID, "longest_rows": s.n, "stale_left_out": s.stale, "orphans_left_out": s.orphan, "checkpoint_height": cpH, "zone": zone,
-			"first_rows_of_file": s.lines[:min(3, len(s.lines))]})
-	}
-
-	// (c) an import into the source store itself (non-empty, with stale and orphan rows)
-	e.nonEmptyUntouched(caseID+"/nonempty", s, rng)
-}
-
-// nonEmptyUntouched re-creates the ingested store and starts it with prepared_db=true
-// and a prepared file: the store must not change.
-func (e *env) nonEmptyUntouched(caseID string, s *store, rng *rand.Rand) {
-	r := e.r
-	// re-create a database holding headers: genesis only, or a prefix of the history
-	removeDB(filepath.Join(e.work, "C.db"))
-	st, err := rig.New(rig.Options{Dir: e.work, Name: "C.db", NoHTTP: true})
-	if err != nil {
-		r.Violate("harness|rig", err.Error(), caseID, nil)
-		return
-	}
-	holds := "genesis-only"
-	if rng.Intn(3) > 0 && len(s.hist.Hdrs) > 0 {
-		holds = "ingested"
-		k := len(s.hist.Hdrs)
-		if k > 60 {
-			k = 1 + rng.Intn(60)
-		}
-		for _, h := range s.hist.Hdrs[:k] {
-			if res := st.Add(h); res.Panic != nil {
-				st.Destroy()
-				return
-			}
-		}
-	}
-	before, err := snap.AllDigest(st.DB)
-	if err != nil {
-		st.Destroy()
-		r.Violate("harness|snapshot", err.Error(), caseID, nil)
-		return
-	}
-	st.Destroy2Close()
 }
